@@ -40,7 +40,7 @@ def _norm_source(txt):
 
 
 SOURCE_ROOTS = ("rotala/src", "rotala/Cargo.toml", "example_clients/alator/src", "example_clients/alator/Cargo.toml",
-                "Cargo.toml", "Cargo.lock")
+                "Cargo.toml")
 
 
 def source_fingerprint():
@@ -197,7 +197,10 @@ def build_harness():
     global _harness_built
     if _harness_built:
         return
-    shutil.copy(os.path.join(REPO, "Cargo.lock"), os.path.join(HARNESS, "Cargo.lock"))
+    if os.path.exists(os.path.join(REPO, "Cargo.lock")):  # git-ignored in /repo: a checkout without it uses the recorded copy
+        shutil.copy(os.path.join(REPO, "Cargo.lock"), os.path.join(HARNESS, "Cargo.lock"))
+    elif not os.path.exists(os.path.join(HARNESS, "Cargo.lock")):
+        shutil.copy(os.path.join(HARNESS, "Cargo.lock.base"), os.path.join(HARNESS, "Cargo.lock"))
     rc, out = sh("cargo build --offline 2>&1", cwd=HARNESS, timeout=1500)
     if rc != 0:
         raise RuntimeError("harness build failed (does /repo still compile with the 'verif' "
